@@ -31,7 +31,8 @@ def AVERAGEA(*args):
 
 @dispatcher.register_for('AVERAGEIF')
 def AVERAGEIF(args, criteria, average_range=None):
-    average_range = average_range or args
+    if average_range is None:  # not "or": a single cell holding 0 is an average range too
+        average_range = args
     args = utils.flatten(args)
     average_range = utils.iparse_number_array(utils.flatten(average_range))
     if isinstance(average_range, error.XLError):
